@@ -298,7 +298,7 @@ def random_cases(tier, seed):
         reps = 1
         combos = None
     else:
-        reps = 1
+        reps = 2
         combos = [(nd, m, inv) for nd in NDISP for m in MEASURES for inv in INVALIDS]
     for rep in range(reps):
         for (h, w) in pairs:
@@ -364,7 +364,7 @@ def run(tier: str, seed: int) -> dict:
              "2x2x1) and every 1x1x5 volume over cell values {NaN,0,1} x measure {min,max} x invalid_disparity "
              "{-9999,0,NaN}; (b) seeded random: every (rows, cols) in {1,2,3,99,100,101,199,200,201}^2 x "
              + ("2 random (ndisp in {1,2,5}, measure, invalid_disparity) draws" if tier == "quick" else
-                "every ndisp in {1,2,5} x measure {min,max} x invalid_disparity {-9999,0,NaN}")
+                "every ndisp in {1,2,5} x measure {min,max} x invalid_disparity {-9999,0,NaN}, 2 random volumes each")
              + ", integer costs (content kinds ties/wide/sparse/signed), NaN patterns none/random/all-NaN pixels/"
              "per-pixel interval/all-NaN lines at the block borders/85% NaN, disparity grids with step 1, 0.5, 0.25, "
              "with and without confidence_measure; (c) argmin_split/argmax_split directly on every (rows, cols) pair "
